@@ -76,6 +76,7 @@ def main(argv: List[str]) -> int:
     table_obl = 0
     table_ok = 0
     bounded_evals = 0
+    diff_n = 0
 
     # ------------------------------------------------------------------ 1. deductive: the two validators, all arguments
     world, interp = cv.build_world()
@@ -109,7 +110,32 @@ def main(argv: List[str]) -> int:
             for b in bad[:1]:
                 run.violation(f"{label}:post", f"{fname}: {b['observed']}", {"input": b, "bounded": True, "note": f"function left the verified subset: {msg}"}, True)
 
-        verify(run, stats, world, interp, fi, contract, label, on_fail, on_unsupported)
+        rep = verify(run, stats, world, interp, fi, contract, label, on_fail, on_unsupported)
+        # encoder-vs-CPython differential on the boundary grid: predicted outcome of the symbolic paths == real outcome
+        if rep is not None and not rep.unsupported and rep.paths_full:
+            from lib import scalardiff
+
+            real = getattr(fresh_validators(live), fname)
+            for v in BOUNDARY + [True, False, None, "5", 0.5, 2.0**31]:
+                for attribute in (_Attr("line"), "plain"):
+                    env: Dict[str, Any] = {}
+                    scalardiff.dyn_env("value", v, env)
+                    scalardiff.dyn_env("instance", None, env)
+                    if isinstance(attribute, str):
+                        scalardiff.dyn_env("attribute", attribute, env)
+                    else:
+                        env["attribute.tag"] = int(world.class_id("AttrsAttribute"))
+                        env["attribute.oid"] = 7
+                        env["attribute.oid.name.s"] = attribute.name
+                    preds = [p for p in scalardiff.predicted(rep.paths_full, env) if p[0] != "unknown"]
+                    try:
+                        r = real(None, attribute, v)
+                        nat = ("return", r)
+                    except Exception as e:  # noqa
+                        nat = ("raise", type(e).__name__)
+                    diff_n += 1
+                    if len({p[:2] for p in preds}) != 1 or preds[0][:2] != nat[:2]:
+                        run.crash(f"encoder disagrees with CPython for {fname}({v!r}): predicted {preds}, real {nat}")
 
     # history independence is part of "for any argument ... the same verdict": always run the small native grid too
     for fname in ("integer_validator", "uinteger_validator"):
@@ -207,6 +233,7 @@ def main(argv: List[str]) -> int:
             "table_obligations": table_obl,
             "table_discharged": table_ok,
             "integer_sites": len(sites),
+            "encoder_vs_cpython_inputs": diff_n,
             "bounded_native_validator_calls": bounded_evals,
             "bounded_entry_point_probes": entry_evals,
             "samples": stats.samples[:6] + [{"site": f"{c.__name__}.{a}", "type": w} for c, a, w, *_ in sites[:5]],
